@@ -973,6 +973,18 @@ def relabel(rng, n):
 
 def oracle_schedule(rng, n, stats):
     v = []
+    # fixed corpus first: the token-less / missing-value tables of C09 under every flag combination, serial vs chunked
+    for (which, ts, L, R, lk, rk, la, ra, t, kw) in empties_corpus():
+        if kw['n_jobs'] == 1:
+            continue
+        try:
+            a = call_join(which, L, R, lk, rk, la, ra, ts, t, dict(kw, n_jobs=1))
+            b = call_join(which, L, R, lk, rk, la, ra, ts, t, kw)
+        except Exception as e:   # noqa: BLE001
+            v.append(viol('C15', 'valid join call raised %s' % type(e).__name__, join_case(which, ts, L, R, lk, rk, la, ra, t, kw)))
+            continue
+        if rows_multiset(a) != rows_multiset(b):
+            v.append(viol('C10', '%s_join result depends on n_jobs (%d vs 1)' % (which, kw['n_jobs']), join_case(which, ts, L, R, lk, rk, la, ra, t, kw), len(a), len(b)))
     for it in range(n + 1):
         if it == 0:
             which, ts, L, R, lk, rk, la, ra, t, kw = straddling_corpus_case()
